@@ -178,7 +178,10 @@ ExtDelete(s, o) ==
     /\ Idle /\ "extdel" \in Ops
     /\ Present(store, s, o)
     /\ store' = [store EXCEPT ![s][o] = Absent]
-    /\ opened' = opened \cup {s} /\ UNCHANGED gced
+    \* (a deletion that leaves every present directory object with its files - a whole directory gone, the directory
+    \* object first - does not break the store's closure: later operations are still held to it)
+    /\ opened' = IF Closed([store EXCEPT ![s][o] = Absent], s) THEN opened ELSE opened \cup {s}
+    /\ UNCHANGED gced
     /\ act' = [op |-> "ExtDelete", s |-> s, o |-> o]
     /\ last' = [op |-> "extdel"]
     /\ UNCHANGED <<ridx, delivered, unfin, dev, nx>> /\ NoXfer
